@@ -50,16 +50,20 @@ OnTime(k) == CASE k \in {"coro", "gencoro", "future"} -> <<"ret", "7">>
                [] k = "cororaise" -> <<"exc", "ValueError">>
                [] k = "swallow"   -> <<"ret", "8">>
 
+(* timeout 0: a coroutine may be cancelled before its body ever ran (it then cannot react) *)
+NeverStarted == {[out |-> <<"exc", "TimeoutError">>, elapsed |-> 0, seen |-> 0]}
+
 (* the allowed results [out, elapsed, seen] of one call *)
 Results(k, d, to) ==
     CASE k = "none"  -> {[out |-> <<"ret", "None">>, elapsed |-> 0, seen |-> 0]}
       [] k = "raise" -> {[out |-> <<"exc", "ValueError">>, elapsed |-> 0, seen |-> 0]}
       [] k = "value" -> {[out |-> <<"exc", "BadYieldError">>, elapsed |-> 0, seen |-> 0]}
       [] k = "stop"  -> {[out |-> <<"exc", "RuntimeError">>, elapsed |-> 0, seen |-> 0]}
+                        \cup (IF to = 0 THEN NeverStarted ELSE {})
       [] OTHER ->
            LET fin == {[out |-> OnTime(k), elapsed |-> d, seen |-> 0]}
                cut == IF k = "swallow"
-                        THEN {[out |-> <<"ret", "8">>, elapsed |-> to, seen |-> s] : s \in (IF to = 0 THEN {0, 1} ELSE {1})}
+                        THEN {[out |-> <<"ret", "8">>, elapsed |-> to, seen |-> 1]} \cup (IF to = 0 THEN NeverStarted ELSE {})
                         ELSE {[out |-> <<"exc", "TimeoutError">>, elapsed |-> to, seen |-> s] :
                                  s \in (IF ~Native(k) THEN {0} ELSE IF to = 0 THEN {0, 1} ELSE {1})}
            IN IF to = NoTo \/ d < to THEN fin
